@@ -115,7 +115,7 @@ def index(ctx: Any) -> List[Ob]:
             if helper is not None:
                 hp = helper.params[1:]
                 for rc_ in walk_local_ordered(helper.node):
-                    if isinstance(rc_, ast.Call) and call_name(rc_) in ('remove', 'discard', 'pop') and rc_.args and isinstance(rc_.args[0], ast.Name) and rc_.args[0].id in hp and hp.index(rc_.args[0].id) < len(c.args):
+                    if isinstance(rc_, ast.Call) and call_name(rc_) in ('remove', 'discard', 'pop') and rc_.args and isinstance(rc_.args[0], ast.Name) and rc_.args[0].id in hp and hp.index(rc_.args[0].id) < len(c.args) and not (isinstance(rc_.func, ast.Attribute) and isinstance(rc_.func.value, ast.Name) and rc_.func.value.id in hp):  # a pop on the index itself drops the bucket, not an element
                         took.append(c.args[hp.index(rc_.args[0].id)])
                     if isinstance(rc_, ast.Delete):
                         for t in rc_.targets:
